@@ -23,7 +23,9 @@ MANIFEST = dict(
          "convention (end to end: header keys -> matrix -> polynomial), SIP A_p_q -> u^p v^q, prefix table per projection, "
          "coefficient count drives model detection; (5) constructor wiring (CRPIX, CD, CD^-1, pole, defaults LONPOLE=180, "
          "theta0=90); (6) object-state discipline: every attribute written by a conversion call is a lazy cache behind a "
-         "set-before-compute flag or scratch written before every read; (7) root finder: target/guess/solver roles, RA-wrapped "
+         "set-before-compute flag or scratch written before every read, and every attribute that is modified in place denotes an object "
+         "owned by the instance (origin analysis: never a module-level object or an element of one, a class-level attribute value or a "
+         "parameter default, directly, through a local, a helper's return value or a helper that modifies its parameter); (7) root finder: target/guess/solver roles, RA-wrapped "
          "longitude residual, tolerance forwarded; (8) jacobian = central differences with wrapped RA difference; the RA-difference "
          "wrap returns input + 360 k in [-180, 180] for every finite scalar or array element and returns for nan/+-inf (case-partitioned "
          "interval x congruence analysis of the function and the helpers it calls; the loop-shape rules decide only where that analysis "
@@ -244,6 +246,7 @@ def run(chk):
     coeffs(chk, repo)
     wiring(chk, repo)
     state(chk, repo)
+    ownership(chk, repo)
     rootfind(chk, repo)
     jacobian(chk, repo)
     wrapdiff(chk, repo)
@@ -1219,6 +1222,393 @@ def state(chk, repo):
                    "%s reads the scratch buffer and is reachable from the public entries only through %s, which rewrites it first" % (rname, wname))
     chk.ob("R10.3", "state-writes-classified", True, "esutil/wcsutil.py",
            "post-construction state: lazy=%s scratch=%s" % (sorted("%s[%s]" % t for t in lazy_written), sorted(scratch)), nontrivial=False)
+
+
+# ---------------------------------------------------------------------------
+# R10.3 (continued) instance ownership: state that is modified in place belongs to one object
+# ---------------------------------------------------------------------------
+_ELEM_METHODS = {"get", "setdefault", "pop", "__getitem__"}
+_IMMUTABLE_CTORS = {"int", "float", "str", "bool", "tuple", "frozenset", "bytes", "len", "complex", "range", "compile", "getLogger"}
+_FRESH_NODES = (ast.Dict, ast.List, ast.Set, ast.ListComp, ast.DictComp, ast.SetComp, ast.GeneratorExp, ast.Constant, ast.Tuple, ast.JoinedStr,
+                ast.BinOp, ast.UnaryOp, ast.Compare, ast.Lambda)
+
+
+def _peel(t):
+    while isinstance(t, ast.Subscript):
+        t = t.value
+    return t
+
+
+class _Own:
+    """Origin analysis ('which object may this expression denote') over the functions of one module; reaching definitions
+    for locals, flow-insensitive over the attributes of `self`, parameter pass-through and in-place effects on parameters
+    summarised per function.  Origins:
+      ('G', name)            a mutable object created when the module is imported (or an element of one): one per process
+      ('C', class, attr)     a mutable class-level attribute value that no method rebinds: one per class
+      ('D', function, param) a mutable default value of a parameter: one per function
+      ('P', param)           the caller's argument (placeholder, substituted at call sites)
+      'fresh'                an object created by evaluating the expression;  'unknown' anything else."""
+
+    def __init__(self, repo, mod):
+        self.repo, self.mod = repo, mod
+        self.funcs = [fi for fi in repo.funcs.values() if fi.module.name == mod.name]
+        self.globals = self._module_mutables()
+        self._b = {}
+        self.attr_bind = {}
+        self.class_attrs = {}
+        for cname, cdef in mod.classes.items():
+            for st in cdef.body:
+                if isinstance(st, ast.Assign) and self._mutable_expr(st.value):
+                    for t in st.targets:
+                        if isinstance(t, ast.Name):
+                            self.class_attrs[(cname, t.id)] = st
+        for fi in self.funcs:
+            sn = self.selfname(fi)
+            if sn is None:
+                continue
+            for x in walk_no_nested(fi.node):
+                pairs = []
+                if isinstance(x, ast.Assign):
+                    for t in x.targets:
+                        pairs += list(self._pairs(t, x.value))
+                elif isinstance(x, ast.AnnAssign) and x.value is not None:
+                    pairs += list(self._pairs(x.target, x.value))
+                for t, kind, v in pairs:
+                    if isinstance(t, ast.Attribute) and isinstance(t.value, ast.Name) and t.value.id == sn:
+                        self.attr_bind.setdefault((fi.cls, t.attr), []).append((fi, x, kind, v))
+        self._ret = {}
+        self.mutparams = {}
+
+    # -- module level ------------------------------------------------------
+    @staticmethod
+    def _mutable_expr(v):
+        if isinstance(v, (ast.Dict, ast.List, ast.Set, ast.ListComp, ast.DictComp, ast.SetComp)):
+            return True
+        return isinstance(v, ast.Call) and call_name(v) not in _IMMUTABLE_CTORS
+
+    def _module_mutables(self):
+        out = {}
+        for _ in range(2):          # second round: aliases `x = y` / `x = y[k]` of what the first round found
+            for x in walk_no_nested(self.mod.tree):
+                if isinstance(x, ast.Assign) or (isinstance(x, ast.AnnAssign) and x.value is not None):
+                    tg = x.targets if isinstance(x, ast.Assign) else [x.target]
+                    r = _peel(x.value)
+                    if self._mutable_expr(x.value) or (isinstance(r, ast.Name) and r.id in out and not isinstance(x.value, ast.Call)):
+                        for t in tg:
+                            if isinstance(t, ast.Name):
+                                out.setdefault(t.id, x)
+        return out
+
+    # -- per function --------------------------------------------------------
+    def selfname(self, fi):
+        if not fi.cls or any(isinstance(d, ast.Name) and d.id in ("staticmethod", "classmethod") for d in fi.node.decorator_list):
+            return None
+        return fi.params[0] if fi.params and not fi.params[0].startswith("*") else None
+
+    @staticmethod
+    def _pairs(t, v):
+        """(leaf target, 'expr' | 'elem', value expression): the leaf is bound to the value, or to an element of it"""
+        if isinstance(t, (ast.Tuple, ast.List)):
+            if isinstance(v, (ast.Tuple, ast.List)) and len(v.elts) == len(t.elts) and not any(isinstance(e, ast.Starred) for e in list(t.elts) + list(v.elts)):
+                for a, b in zip(t.elts, v.elts):
+                    for p in _Own._pairs(a, b):
+                        yield p
+            else:
+                for a in t.elts:
+                    for leaf, _, _ in _Own._pairs(a.value if isinstance(a, ast.Starred) else a, v):
+                        yield leaf, "elem", v
+        else:
+            yield t, "expr", v
+
+    def bindings(self, fi):
+        b = self._b.get(fi.qualname)
+        if b is not None:
+            return b
+        names, globs = {}, set()
+
+        def bind(t, v, st, force=None):
+            for leaf, kind, vv in self._pairs(t, v):
+                if isinstance(leaf, ast.Name):
+                    names.setdefault(leaf.id, []).append((force or kind, vv, st))
+
+        for x in walk_no_nested(fi.node):
+            if isinstance(x, ast.Global):
+                globs |= set(x.names)
+            elif isinstance(x, ast.Assign):
+                for t in x.targets:
+                    bind(t, x.value, x)
+            elif isinstance(x, ast.AnnAssign) and x.value is not None:
+                bind(x.target, x.value, x)
+            elif isinstance(x, ast.NamedExpr):
+                bind(x.target, x.value, None)
+            elif isinstance(x, (ast.For, ast.comprehension)):
+                it, t = x.iter, x.target
+                st = x if isinstance(x, ast.For) else None
+                if isinstance(it, ast.Call) and isinstance(it.func, ast.Attribute) and it.func.attr in ("items", "values") and not it.args:
+                    if it.func.attr == "values":
+                        bind(t, it.func.value, st, "elem")
+                    elif isinstance(t, (ast.Tuple, ast.List)) and len(t.elts) == 2:
+                        bind(t.elts[1], it.func.value, st, "elem")
+                elif isinstance(it, ast.Call) and call_name(it) == "enumerate" and it.args and isinstance(t, (ast.Tuple, ast.List)) and len(t.elts) == 2:
+                    bind(t.elts[1], it.args[0], st, "elem")
+                elif not isinstance(it, ast.Call):
+                    bind(t, it, st, "elem")
+        for x in walk_no_nested(fi.node):
+            if isinstance(x, ast.Name) and isinstance(x.ctx, (ast.Store, ast.Del)) and x.id not in names:
+                names[x.id] = [("unknown", None, None)]
+        cfg = cfg_of(fi)
+        nodeof = {id(n.ast): n.id for n in cfg.nodes if n.ast is not None and n.kind in ("stmt", "return", "loop")}
+        try:
+            IN = cfg.view().reaching_defs()[0]
+        except Exception:
+            IN = None
+        b = self._b[fi.qualname] = dict(names=names, globals=globs, nodeof=nodeof, IN=IN, entry=cfg.entry.id,
+                                         params=[p.lstrip("*") for p in fi.params])
+        return b
+
+    def _at(self, fi, st):
+        return self.bindings(fi)["nodeof"].get(id(st)) if st is not None else None
+
+    @staticmethod
+    def _elem(s):
+        out = {t for t in s if isinstance(t, tuple)}
+        if not out or len(out) != len(s):
+            out.add("unknown")
+        return out
+
+    def _param_origin(self, fi, p):
+        out = {("P", p)}
+        d = fi.defaults.get(p)
+        if d is not None and self._mutable_expr(d):
+            out.add(("D", fi.qualname, p))
+        return out
+
+    def origin(self, fi, e, at=None, seen=frozenset()):
+        if isinstance(e, ast.Name):
+            b = self.bindings(fi)
+            isparam = e.id in b["params"]
+            if e.id in b["names"] and e.id not in b["globals"]:
+                key = (fi.qualname, e.id, at)
+                if key in seen:
+                    return set()
+                binds = b["names"][e.id]
+                withparam = isparam
+                rd = b["IN"].get(at, {}).get(e.id) if (b["IN"] is not None and at is not None) else None
+                if rd and all(st is not None and id(st) in b["nodeof"] for _, _, st in binds):
+                    sel = [bd for bd in binds if b["nodeof"][id(bd[2])] in rd]
+                    if len(sel) >= len(rd - {b["entry"]}):          # every reaching definition is one of the recorded bindings
+                        binds = sel
+                        withparam = isparam and b["entry"] in rd
+                out = set()
+                for kind, v, st in binds:
+                    if kind == "unknown":
+                        out.add("unknown")
+                        continue
+                    o = self.origin(fi, v, self._at(fi, st), seen | {key})
+                    out |= o if kind == "expr" else self._elem(o)
+                if withparam:
+                    out |= self._param_origin(fi, e.id)
+                return out
+            if isparam:
+                return self._param_origin(fi, e.id)
+            if e.id in self.globals and e.id not in self.mod.funcs and e.id not in self.mod.classes:
+                return {("G", e.id)}
+            return {"unknown"}
+        if isinstance(e, ast.Subscript):
+            return self._elem(self.origin(fi, e.value, at, seen))
+        if isinstance(e, ast.Attribute):
+            sn = self.selfname(fi)
+            if sn is not None and isinstance(e.value, ast.Name) and e.value.id == sn and e.value.id not in self.bindings(fi)["names"]:
+                return self.attr_origin(fi.cls, e.attr, seen)
+            return {"unknown"}
+        if isinstance(e, (ast.IfExp,)):
+            return self.origin(fi, e.body, at, seen) | self.origin(fi, e.orelse, at, seen)
+        if isinstance(e, ast.BoolOp):
+            out = set()
+            for v in e.values:
+                out |= self.origin(fi, v, at, seen)
+            return out
+        if isinstance(e, ast.NamedExpr):
+            return self.origin(fi, e.value, at, seen)
+        if isinstance(e, ast.Call):
+            f = e.func
+            if isinstance(f, ast.Attribute) and f.attr in _ELEM_METHODS and not (isinstance(f.value, ast.Name) and f.value.id in self.mod.imports):
+                out = self._elem(self.origin(fi, f.value, at, seen))
+                if f.attr in ("get", "setdefault", "pop") and len(e.args) == 2:
+                    out |= self.origin(fi, e.args[1], at, seen)
+                return out
+            tgt, bound = self.callee(fi, e)
+            if tgt is not None:
+                key = ("ret", tgt.qualname)
+                if key in seen:
+                    return set()
+                out = set()
+                for o in self.returns(tgt, seen | {key}):
+                    if isinstance(o, tuple) and o[0] == "P":
+                        out |= self.origin(fi, bound[o[1]], at, seen | {key}) if (bound and o[1] in bound) else {"unknown"}
+                    else:
+                        out.add(o)
+                return out or {"unknown"}
+            return {"fresh"}
+        if isinstance(e, _FRESH_NODES):
+            return {"fresh"}
+        return {"unknown"}
+
+    def attr_origin(self, cls, attr, seen=frozenset()):
+        key = ("attr", cls, attr)
+        if key in seen:
+            return set()
+        out = set()
+        for fi, st, kind, v in self.attr_bind.get((cls, attr), []):
+            o = self.origin(fi, v, self._at(fi, st), seen | {key})
+            out |= o if kind == "expr" else self._elem(o)
+        if not self.attr_bind.get((cls, attr)):
+            out.add(("C", cls, attr) if (cls, attr) in self.class_attrs else "unknown")
+        return out
+
+    def callee(self, fi, c):
+        """(FuncInfo of this module, {parameter: argument expression} or None when the arguments cannot be bound)"""
+        d = dotted_name(c.func)
+        if not d:
+            return None, None
+        sn = self.selfname(fi)
+        tgt, skip = None, 0
+        if sn is not None and d.startswith(sn + ".") and d.count(".") == 1 and self.repo.has("%s.%s.%s" % (self.mod.name, fi.cls, d.split(".")[1])):
+            tgt = self.repo.func("%s.%s.%s" % (self.mod.name, fi.cls, d.split(".")[1]))
+            skip = 1 if self.selfname(tgt) is not None else 0
+        else:
+            full = self.repo.resolve_name(self.mod, d)
+            if self.repo.has(full) and self.repo.func(full).module.name == self.mod.name and not self.repo.func(full).cls:
+                tgt = self.repo.func(full)
+        if tgt is None:
+            return None, None
+        params = [p for p in tgt.params if not p.startswith("*")][skip:]
+        if any(isinstance(a, ast.Starred) for a in c.args) or any(k.arg is None for k in c.keywords) or len(c.args) > len(params):
+            return tgt, None
+        bound = dict(zip(params, c.args))
+        for k in c.keywords:
+            if k.arg in params and k.arg not in bound:
+                bound[k.arg] = k.value
+        return tgt, bound
+
+    def returns(self, fi, seen=frozenset()):
+        if fi.qualname in self._ret:
+            return self._ret[fi.qualname]
+        out = set()
+        for x in walk_no_nested(fi.node):
+            if isinstance(x, ast.Return) and x.value is not None and not isinstance(x.value, ast.Tuple):
+                out |= self.origin(fi, x.value, self._at(fi, x), seen)
+        if not seen:
+            self._ret[fi.qualname] = out
+        return out
+
+    # -- in-place modifications ------------------------------------------------
+    def sites(self):
+        """[(function, statement, expression denoting the modified object, its origins, text)] for every in-place modification
+        in the module's functions: subscript stores and deletes, mutator method calls, and calls of functions of this module that
+        modify their parameter (summaries, iterated to a fixed point)"""
+        direct = []
+        calls = []
+        for fi in self.funcs:
+            for x in walk_no_nested(fi.node):
+                if not isinstance(x, (ast.Assign, ast.AugAssign, ast.AnnAssign, ast.Delete, ast.Expr, ast.Return)):
+                    continue
+                at = self._at(fi, x)
+                tg = []
+                if isinstance(x, ast.Assign):
+                    for t in x.targets:
+                        tg += list(rules._flat_targets(t))
+                elif isinstance(x, (ast.AugAssign, ast.AnnAssign)):
+                    tg = [x.target]
+                elif isinstance(x, ast.Delete):
+                    tg = list(x.targets)
+                for t in tg:
+                    if isinstance(t, ast.Subscript):
+                        direct.append((fi, x, _peel(t), at, "`%s%s`" % (norm(t)[:60], " = ..." if not isinstance(x, ast.Delete) else " deleted")))
+                for c in walk_no_nested(x):
+                    if not isinstance(c, ast.Call):
+                        continue
+                    if isinstance(c.func, ast.Attribute) and c.func.attr in MUTATORS and not (isinstance(c.func.value, ast.Name) and c.func.value.id in self.mod.imports):
+                        direct.append((fi, x, _peel(c.func.value), at, "`%s`" % norm(c)[:60]))
+                    tgt, bound = self.callee(fi, c)
+                    if tgt is not None and bound:
+                        calls.append((fi, x, c, tgt, bound, at))
+        out = []
+        for fi, x, root, at, txt in direct:
+            o = self.origin(fi, root, at)
+            out.append((fi, x, root, o, txt))
+            for t in o:
+                if isinstance(t, tuple) and t[0] == "P":
+                    self.mutparams.setdefault(fi.qualname, {}).setdefault(t[1], txt)
+        done = set()
+        for _ in range(4):
+            grew = False
+            for fi, x, c, tgt, bound, at in calls:
+                for p, txt in list(self.mutparams.get(tgt.qualname, {}).items()):
+                    if p not in bound or (id(c), p) in done:
+                        continue
+                    done.add((id(c), p))
+                    o = self.origin(fi, _peel(bound[p]), at)
+                    desc = "`%s` (%s modifies its parameter `%s`: %s)" % (norm(c)[:50], tgt.name, p, txt)
+                    out.append((fi, x, _peel(bound[p]), o, desc))
+                    for t in o:
+                        if isinstance(t, tuple) and t[0] == "P" and t[1] not in self.mutparams.get(fi.qualname, {}):
+                            self.mutparams.setdefault(fi.qualname, {})[t[1]] = desc
+                            grew = True
+            if not grew:
+                break
+        return out
+
+    @staticmethod
+    def describe(t):
+        if t[0] == "G":
+            return "the module-level object `%s` (or an element of it), of which there is one per process" % t[1]
+        if t[0] == "C":
+            return "the class-level attribute value `%s.%s`, of which there is one per class" % (t[1], t[2])
+        return "the default value of parameter `%s` of %s, of which there is one per process" % (t[2], t[1])
+
+
+def ownership(chk, repo):
+    """An object that a method modifies in place and that an instance keeps as its state must belong to that instance alone:
+    it must not be (an element of) a module-level object, a class-level attribute value or a parameter default, because those
+    exist once per process and every other WCS object built or used later reads and writes the same one -- results would then
+    depend on which other objects exist, not on the header the object was built from."""
+    mod = repo.module(MOD)
+    own = _Own(repo, mod)
+    sites = own.sites()
+    shared = lambda o: {t for t in o if isinstance(t, tuple) and t[0] in ("G", "C", "D")}
+    cls = "WCS"
+    attrs = sorted({a for (c, a) in list(own.attr_bind) + list(own.class_attrs) if c == cls})
+    claimed = set()
+    for attr in attrs:
+        o = own.attr_origin(cls, attr)
+        sh = shared(o)
+        selfroot = [s for s in sites if s[0].cls == cls and isinstance(s[2], ast.Attribute) and isinstance(s[2].value, ast.Name)
+                    and s[2].value.id == own.selfname(s[0]) and s[2].attr == attr]
+        hits = [s for s in sites if shared(s[3]) & sh]
+        if not sh:
+            if selfroot:
+                chk.ob("R10.3", "instance-owned::self.%s" % attr, True, selfroot[0][0].where(selfroot[0][1]),
+                       "modified in place at %d site(s); every binding of the attribute is an object created for this instance or handed in by the caller" % len(selfroot))
+            continue
+        claimed |= {id(s[1]) for s in hits}
+        bind = next(((fi, st) for fi, st, kind, v in own.attr_bind.get((cls, attr), []) if shared(own.origin(fi, v, own._at(fi, st)))), None)
+        where = bind[0].where(bind[1]) if bind else "esutil/wcsutil.py"
+        what = "; ".join(own.describe(t) for t in sorted(sh))
+        if hits:
+            chk.ob("R10.3", "instance-owned::self.%s" % attr, False, where,
+                   "self.%s is bound%s to %s, and that object is modified in place: %s -- the state of one WCS object is overwritten when another one is "
+                   "built or used, so conversions depend on which other objects exist (bind a copy, or build the instance's own container)"
+                   % (attr, " in %s by `%s`" % (bind[0].name, norm(bind[1]).split("\n")[0][:70]) if bind else "", what,
+                      ", ".join("%s in %s line %s" % (s[4], s[0].name, getattr(s[1], "lineno", "?")) for s in hits[:5]) + (" ..." if len(hits) > 5 else "")))
+        else:
+            chk.ob("R10.3", "instance-owned::self.%s" % attr, True, where, "bound to %s but never modified in place (read-only sharing)" % what)
+    # a method that writes into process-wide state which no attribute holds: a cache keyed by its inputs, or model state kept
+    # outside the object -- the two cannot be told apart here
+    for fi, st, root, o, txt in sites:
+        if fi.cls == cls and shared(o) and id(st) not in claimed:
+            chk.ob("R10.3", "process-wide-state-written::%s::%s" % (fi.name, norm(root)[:40]), None, fi.where(st),
+                   "%s modifies %s; not recognised as either a pure cache or per-object state" % (txt, "; ".join(own.describe(t) for t in sorted(shared(o)))))
 
 
 # ---------------------------------------------------------------------------
